@@ -20,10 +20,16 @@ pub fn judge(src: &Sources, out: &Outcome, cross: bool) -> Vec<Violation> {
             accepted: true,
             info,
         } => {
-            let tag = if cross { " [cross-module-application]" } else { "" };
+            // In the trigger shape of the open finding on cross-module instantiation any cast may fail with
+            // any value: the signature names the failing cast only. Elsewhere it also names the value's variant.
+            let sig = if cross {
+                format!("C01 panic in {stage}: {} [cross-module-application]", info.class())
+            } else {
+                format!("C01 panic in {stage}: {}", info.signature())
+            };
             vec![Violation::new(
                 "accepted program panicked in the back end",
-                json!({"signature": format!("C01 panic in {stage}: {}{tag}", info.signature()),
+                json!({"signature": sig,
                        "message": info.message, "location": info.location}),
             )]
         }
@@ -191,7 +197,7 @@ impl Workload for Depth {
 pub fn run(ctx: &Ctx) -> i32 {
     let mut acc = Acc::new(ctx);
     let wl = Explore {
-        n: if ctx.quick() { 40_000 } else { 1_000_000 },
+        n: if ctx.quick() { 40_000 } else { 3_000_000 },
     };
     acc.pool(&wl, "explore", true);
     acc.pool(&Depth, "c01depth", true);
